@@ -95,6 +95,10 @@ func chooseTrim(tag string, level int) trimSpec {
 }
 
 func wrap(p parsley.Parser, t trimSpec) parsley.Parser {
+	if t.left && t.right && rt.Param("leftoutside", 0) == 1 {
+		// the other nesting of the two trims
+		return text.LeftTrim(text.RightTrim(p, t.mR), t.mL)
+	}
 	if t.left {
 		p = text.LeftTrim(p, t.mL)
 	}
